@@ -4,35 +4,35 @@ import NflVerif.Proofs.Prng18InvB
 import NflVerif.Proofs.Prng18InvC
 namespace Nfl.Prng18
 
-structure Inv (seedVal : Nat → Nat) (reqs : Nat → Nat) (n0 : Nat) (s : State) : Prop where
-  a : InvA seedVal n0 s
+structure Inv (sd : Seeding) (seedVal : Nat → Nat) (reqs : Nat → Nat) (n0 : Nat) (s : State) : Prop where
+  a : InvA sd seedVal n0 s
   b : InvB reqs s
   c : InvC s
 
-theorem inv_init (seedVal reqs : Nat → Nat) (n0 : Nat) (hn0 : n0 < W) : Inv seedVal reqs n0 (init reqs n0) :=
-  ⟨invA_init seedVal reqs n0 hn0, invB_init reqs n0, invC_init reqs n0⟩
+theorem inv_init (sd : Seeding) (seedVal reqs : Nat → Nat) (n0 : Nat) (hn0 : n0 < W) : Inv sd seedVal reqs n0 (init reqs n0) :=
+  ⟨invA_init sd seedVal reqs n0 hn0, invB_init reqs n0, invC_init reqs n0⟩
 
-theorem inv_step {seedVal reqs : Nat → Nat} {n0 : Nat} {s s' : State} {t : Nat}
-    (hi : Inv seedVal reqs n0 s) (hs : step seedVal s t = some s') : Inv seedVal reqs n0 s' :=
+theorem inv_step {sd : Seeding} {seedVal reqs : Nat → Nat} {n0 : Nat} {s s' : State} {t : Nat}
+    (hi : Inv sd seedVal reqs n0 s) (hs : step sd seedVal s t = some s') : Inv sd seedVal reqs n0 s' :=
   ⟨invA_step hi.a hs, invB_step hi.a hi.b hs, invC_step hi.a hi.c hs⟩
 
-theorem inv_run {seedVal reqs : Nat → Nat} {n0 : Nat} :
-    ∀ (sched : List Nat) (s s' : State), Inv seedVal reqs n0 s → run seedVal s sched = some s' → Inv seedVal reqs n0 s' := by
+theorem inv_run {sd : Seeding} {seedVal reqs : Nat → Nat} {n0 : Nat} :
+    ∀ (sched : List Nat) (s s' : State), Inv sd seedVal reqs n0 s → run sd seedVal s sched = some s' → Inv sd seedVal reqs n0 s' := by
   intro sched
   induction sched with
   | nil => intro s s' hi hr; simp [run] at hr; subst hr; exact hi
   | cons t r ih =>
     intro s s' hi hr
     simp only [run] at hr
-    cases hst : step seedVal s t with
+    cases hst : step sd seedVal s t with
     | none => simp [hst] at hr
     | some s1 =>
       rw [hst] at hr
       exact ih s1 s' (inv_step hi hst) hr
 
-theorem reach_inv (seedVal reqs : Nat → Nat) (n0 : Nat) (hn0 : n0 < W) (sched : List Nat) (s : State)
-    (hr : run seedVal (init reqs n0) sched = some s) : Inv seedVal reqs n0 s :=
-  inv_run sched _ s (inv_init seedVal reqs n0 hn0) hr
+theorem reach_inv (sd : Seeding) (seedVal reqs : Nat → Nat) (n0 : Nat) (hn0 : n0 < W) (sched : List Nat) (s : State)
+    (hr : run sd seedVal (init reqs n0) sched = some s) : Inv sd seedVal reqs n0 s :=
+  inv_run sched _ s (inv_init sd seedVal reqs n0 hn0) hr
 
 /-- a history whose nonces are `n, n+1, …` (mod 2^64) in order IS the sequential service of its thread order -/
 theorem eq_seqServe : ∀ (l : List (Nat × Nat)) (n : Nat),
